@@ -33,7 +33,7 @@ type wCase struct {
 	Regions [][]int  `json:"regions"`
 	Meta    bool     `json:"meta"`
 	Keys    int      `json:"keys"` // 0: map key = ID; 1: foreign keys; 2: foreign keys, the first two styles / regions share one ID
-	Scheme  int      `json:"-"` // naming scheme of the definitions (set by the driver from the case number)
+	Scheme  int      `json:"-"`    // naming scheme of the definitions (set by the driver from the case number)
 }
 
 // identifiers of styles: the order of byte-wise sorting, of case-insensitive sorting and of insertion all differ,
